@@ -272,3 +272,181 @@ Example C02_generated_subnet_example :
   option_map canon (py_run_edges 5 [(0,0); (1,0); (1,1); (2,3); (7,2); (7,3)]%nat)
   = Some [([0;1], [0;1]); ([2;7], [2;3]); ([], [4])]%nat.
 Proof. vm_compute. reflexivity. Qed.
+
+(* (10) ROUTE T, the per-step bookkeeping of the Linker.  Gen/linkstep.v is regenerated by
+   tools/py2coq_linkstep.py (Python ast, fail-closed; vocabulary Model/PyLinkstep.v) from the CURRENT
+   text of Subnets.__init__ / reset / compute / __iter__ / lost (trackpy/linking/subnet.py),
+   subnet_linker_recursive (subnetlinker.py) and Linker.next_level / assign_links / apply_links /
+   particle_ids (linking.py) on every run of the check.  One world record [lk] stands for the Linker,
+   its Subnets object and the mutable attributes of the Points of the step (points are their indices,
+   as in (8) and (9)); the KD-tree query is the parameter [q] (per destination its sources within
+   range with the squared distance), the iteration order of Python sets the parameter [ord].  The
+   generated code CALLS the generated assign_subnet and SubnetLinker constructor of (9). *)
+From TP Require Import Model.PyLinkstep Gen.linkstep Proofs.LinkstepGen Proofs.LinkstepGen2 Proofs.LinkstepApply.
+
+(* (10a) Subnets(prev_hash, self.hash, ...) = reset(); compute().  From ANY world -- whatever subnet
+   dictionary and stale .subnet attributes earlier steps left -- and any query result whose rows are the
+   destinations and whose source indices exist, the generated code does not raise, and leaves
+     - a subnet heap that agrees with the model's run_edges (8) on the visited (source, dest) pairs in
+       the order dest-major / nearest first: the SAME dictionary, the same .subnet attribute on every
+       point of the two frames ([mst_sim]); so [Inv] and all of (8) hold of it;
+     - in every source's forward_cands exactly the (dest, dist**2) of the pairs it occurs in, in
+       destination order;   - includes_lost = False, everything else of the Linker untouched. *)
+Theorem C02_generated_subnets_init : forall (q : kdq) (w : lk),
+  length q = length (k_dests w) ->
+  (forall e, In e (qedges q) -> (fst (fst e) < length (k_srcs w))%nat) ->
+  let ns := length (k_srcs w) in let nd := length (k_dests w) in
+  let es := map edge_of (qedges q) in
+  exists w2 m2, py_Subnets_init q w = FDone w2 tt
+    /\ run_edges nd es = Some m2 /\ Inv nd es m2 /\ mst_sim ns nd (k_mst w2) m2
+    /\ (forall s, (s < ns)%nat -> get_forward_cands w2 s = fcs_of s (qedges q))
+    /\ k_includes_lost w2 = false
+    /\ k_srcs w2 = k_srcs w /\ k_dests w2 = k_dests w /\ k_now w2 = k_now w /\ k_dtrack w2 = k_dtrack w
+    /\ k_mem_set w2 = k_mem_set w /\ k_mem_history w2 = k_mem_history w /\ k_memory w2 = k_memory w
+    /\ k_counter w2 = k_counter w /\ k_max_size w2 = k_max_size w /\ k_R2 w2 = k_R2 w.
+Proof. exact gen_subnets_init. Qed.
+Print Assumptions C02_generated_subnets_init.
+
+(* (10b) C02_subnet_ids_are_connected_components for the generated Subnets(...): two points of the two
+   frames carry the same subnet id exactly when a chain of candidate pairs joins them. *)
+Theorem C02_generated_subnets_connected : forall (q : kdq) (w w2 : lk) x y i,
+  length q = length (k_dests w) ->
+  (forall e, In e (qedges q) -> (fst (fst e) < length (k_srcs w))%nat) ->
+  py_Subnets_init q w = FDone w2 tt ->
+  in_frames (length (k_srcs w)) (length (k_dests w)) x -> in_frames (length (k_srcs w)) (length (k_dests w)) y ->
+  vsub (k_mst w2) x = Some i ->
+  (vsub (k_mst w2) y = Some i <-> conn (map edge_of (qedges q)) x y).
+Proof. exact gen_subnets_connected. Qed.
+Print Assumptions C02_generated_subnets_connected.
+
+(* (10c) One subnet in Linker.assign_links.  For an entry (source_set S, dest_set Dd) of the dictionary
+   that is not one of the shortcut shapes (one source and at most one destination; no source), with S
+   without repetition and ANY iteration order of the Python sets, the generated sort loop
+   `for sp in source_set: sp.forward_cands.sort(key=lambda x: x[1])` followed by the generated
+   subnet_linker_recursive (null candidate (None, search_range) appended to every source, the generated
+   SubnetLinker constructor of (9), zip of best_pairs, one (None, dp) per unclaimed destination) IS the
+   model's solve_group on the group [(s, sorted candidates of s ++ [null])], s in S in iteration order:
+   SubnetOversizeException exactly where the model says Oversize, otherwise the model's links followed by
+   the unclaimed destinations; forward_cands change only on S, nothing else changes. *)
+Theorem C02_generated_subnet_is_solve_group : forall (ord : list nat -> list nat),
+  (forall l, Permutation (ord l) l) -> forall (w : lk) (S Dd : list nat),
+  NoDup S -> S <> [] ->
+  (andb (Nat.eqb (length S) 1) (Nat.eqb (length Dd) 1) = false) ->
+  (andb (Nat.eqb (length S) 1) (Nat.eqb (length Dd) 0) = false) ->
+  let g := map (raw_item w) (ord S) in
+  Forall item_ok g ->
+  exists w2,
+    py_subnet_linker_recursive ord (sort_loop ord w S) S Dd (k_R2 w) (k_max_size w)
+    = match solve_group (k_max_size w) g with
+      | Oversize => FFail XSubnetOversizeException
+      | Ok l => let U := set_iter ord (nset_diff Dd (somes (links_dst l))) in
+                FDone w2 (links_src l ++ map (fun _ => None) U, links_dst l ++ map Some U)
+      end
+    /\ same_frame w w2 /\ k_mst w2 = k_mst w
+    /\ forall s, get_forward_cands w2 s = if existsb (Nat.eqb s) S then snd (raw_item w s) else get_forward_cands w s.
+Proof. exact gen_entry_solve. Qed.
+Print Assumptions C02_generated_subnet_is_solve_group.
+
+(* (10d) ... hence C02_bnb_optimal and the size clause of the property for what the generated code does
+   with a subnet: it raises SubnetOversizeException exactly when the subnet has more than
+   MAX_SUB_NET_SIZE sources, and otherwise the (source, destination or None) links it returns are a
+   one-to-one assignment of the subnet's sources of minimal total cost ([is_opt], as in (4)), followed
+   by the destinations of the subnet nobody claimed (new trajectories). *)
+Theorem C02_generated_subnet_optimal : forall (ord : list nat -> list nat),
+  (forall l, Permutation (ord l) l) -> forall (w : lk) (S Dd : list nat),
+  NoDup S -> S <> [] ->
+  (andb (Nat.eqb (length S) 1) (Nat.eqb (length Dd) 1) = false) ->
+  (andb (Nat.eqb (length S) 1) (Nat.eqb (length Dd) 0) = false) ->
+  let g := map (raw_item w) (ord S) in
+  Forall item_ok g ->
+  (py_subnet_linker_recursive ord (sort_loop ord w S) S Dd (k_R2 w) (k_max_size w) = FFail XSubnetOversizeException
+     <-> (k_max_size w < length S)%nat) /\
+  (forall w2 spl dpl, py_subnet_linker_recursive ord (sort_loop ord w S) S Dd (k_R2 w) (k_max_size w) = FDone w2 (spl, dpl) ->
+     exists pairs U, is_opt g pairs
+       /\ spl = links_src (map strip pairs) ++ map (fun _ => None) U
+       /\ dpl = links_dst (map strip pairs) ++ map Some U
+       /\ Permutation U (nset_diff Dd (somes (links_dst (map strip pairs))))).
+Proof. exact gen_entry_optimal. Qed.
+Print Assumptions C02_generated_subnet_optimal.
+
+(* (10e) Linker.apply_links.  Let the world stand for the model state st (k_srcs = live st, fresh
+   destination points) and the queue q of (7) (mem_set / mem_history as sets of (label, frame) keys), and
+   let (spl, dpl) be any pairing in which no pair is (None, None), sources are in range and no destination
+   occurs twice.  Then the generated apply_links does not raise; a linked destination gets the label of its
+   source, an unclaimed one the next fresh ids in the order of the list; mem_set and every slot of
+   mem_history are, as sets, exactly what the model's q_step of (7) keeps -- so C02_memory_queue speaks
+   about the generated code --; forward_cands of every source are emptied; nothing else changes. *)
+Theorem C02_generated_apply_links : forall (w : lk) (spl dpl : list (option nat)) (st : lstate) (q : qstate),
+  k_srcs w = live st -> k_dtrack w = [] ->
+  q_mem q = map key_of (k_mem_set w) -> q_hist q = map (map key_of) (k_mem_history w) ->
+  (k_memory w <= length (k_mem_history w))%nat ->
+  length spl = length dpl ->
+  (forall sd, In sd (combine spl dpl) -> sd <> (None, None)) ->
+  NoDup (somes spl) -> (forall s, In s (somes spl) -> (s < length (live st))%nat) ->
+  NoDup (somes dpl) ->
+  NoDup (map key_of (live st)) ->
+  exists w', py_Linker_apply_links w spl dpl = FDone w' tt /\
+    k_counter w' = (k_counter w + length (births spl dpl))%nat /\
+    (forall j, In j (somes dpl) ->
+       alook j (k_dtrack w') = Some (match source_of (links_of spl dpl) j with
+                                     | Some i => lab_of st i
+                                     | None => (k_counter w + index_of j (births spl dpl))%nat end)) /\
+    (forall j, ~ In j (somes dpl) -> alook j (k_dtrack w') = None) /\
+    (forall k, In k (map key_of (k_mem_set w')) <-> In k (q_mem (q_step (k_memory w) (live st) (links_of spl dpl) q))) /\
+    Forall2 (fun (a : list src) (b : list Model.MemQueue.key) => forall k, In k (map key_of a) <-> In k b)
+            (k_mem_history w') (q_hist (q_step (k_memory w) (live st) (links_of spl dpl) q)) /\
+    (forall p, get_forward_cands w' p = if existsb (Nat.eqb p) (somes spl) then [] else get_forward_cands w p) /\
+    k_srcs w' = k_srcs w /\ k_dests w' = k_dests w /\ k_now w' = k_now w /\ k_mst w' = k_mst w /\
+    k_memory w' = k_memory w /\ k_max_size w' = k_max_size w /\ k_R2 w' = k_R2 w /\ k_includes_lost w' = k_includes_lost w.
+Proof. exact gen_apply_links_spec. Qed.
+Print Assumptions C02_generated_apply_links.
+
+(* non-vacuity: one generated next_level step.  Three tracks 0 1 2 at 0, 10, 20; new frame at 1, 12, 40
+   (search_range 5, memory 1): sources 0 and 1 compete for destinations 0 and 1 (one subnet, solved by the
+   generated SubnetLinker), destination 2 starts trajectory 3, source 2 is lost and remembered.  The world
+   starts with a stale dictionary flag and stale .subnet attributes, which reset() overwrites. *)
+Example C02_generated_step_example :
+  let w0 := mk_lk [] [[0];[10];[20]] 0 [] {| subs := []; ssub := [(7,3)%nat]; dsub := [(0,5)%nat] |} true
+                  [(0,0);(1,1);(2,2)]%nat [] [[]] 1 3 30 25 in
+  match py_Linker_next_level (fun l => l) (fun l => l) [[(0%nat,1);(1%nat,16)]; [(0%nat,9);(1%nat,4)]; []] w0 [[1];[12];[40]] 1 with
+  | FDone w _ => Some (match py_Linker_particle_ids w with FDone _ l => l | FFail _ => [] end,
+                       map key_of (k_mem_set w), k_counter w, map fst (subs (k_mst w)))
+  | FFail _ => None
+  end
+  = Some ([0; 1; 3]%nat, [(2, 0)%nat], 4%nat, [1; 2]%nat).
+Proof. vm_compute. reflexivity. Qed.
+
+(* (10f) Linker.assign_links is the loop over the subnet dictionary in insertion order -- for every entry
+   the sort loop and the subnet linker of (10c), the (source, destination) lists concatenated -- followed
+   by the sources without subnet (Subnets.lost, ValueError when lost particles were included), each paired
+   with None; Linker.next_level is update_hash, Subnets(...) (10a), assign_links, apply_links (10e).  So a
+   change to either def's loop structure, order of statements or collection of spl / dpl breaks these
+   equalities. *)
+Theorem C02_generated_assign_links : forall (ord : list nat -> list nat) (w : lk),
+  py_Linker_assign_links ord w
+  = match entries_run ord (dict_values w) w [] [] with
+    | FFail x => FFail x
+    | FDone w' v =>
+      if k_includes_lost w' then FFail XValueError
+      else let lost := filter (subnet_is_none w') (source_points w') in
+           FDone w' (fst v ++ map Some lost, snd v ++ repeat None (length lost))
+    end.
+Proof. exact gen_assign_links_eq. Qed.
+Print Assumptions C02_generated_assign_links.
+
+Theorem C02_generated_next_level : forall ord ordp (q : kdq) (w : lk) coords t,
+  py_Linker_next_level ord ordp q w coords t
+  = match py_Subnets_init q (update_hash_abs ordp w coords t) with
+    | FFail x => FFail x
+    | FDone w1 _ =>
+      match py_Linker_assign_links ord w1 with
+      | FFail x => FFail x
+      | FDone w2 v =>
+        match py_Linker_apply_links w2 (fst v) (snd v) with
+        | FFail x => FFail x
+        | FDone w3 _ => FDone w3 tt
+        end
+      end
+    end.
+Proof. exact gen_next_level_eq. Qed.
+Print Assumptions C02_generated_next_level.
